@@ -25,3 +25,8 @@ def run(ctx):
     from ..rules_misc import characterize_rule, helper_rules
     ctx.guard(characterize_rule, ctx, "C20.characterize")
     ctx.guard(helper_rules, ctx, "C20.helpers")
+    # ... and each candidate class answers with the pattern of its own structure(), matched whatever the letter case
+    from ..rules_ast import persistent_state_rule
+    ctx.guard(persistent_state_rule, ctx, "C20.own-pattern")
+    from ..rules_flow import transcription_rule
+    ctx.guard(transcription_rule, ctx, "C20.case-flag")
